@@ -33,7 +33,7 @@ def observe (v : V) : String :=
 /-- property oracles on the implementation's observation of a value -/
 def valueOracles (impl : String) (wantType : Option Nat) : List (String × String) :=
   match Oracles.parseObs impl with
-  | some o => Oracles.c06 o ++ Oracles.c01 o wantType ++ Oracles.c02 o ++ Oracles.c02elem o
+  | some o => Oracles.c06 o ++ Oracles.c01 o wantType ++ Oracles.c02 o ++ Oracles.c02elem o ++ Oracles.c03 o ++ Oracles.c03elem o
   | none => []
 
 def enc : Handler := fun args impl =>
